@@ -1,6 +1,6 @@
 
 // ===== appended by /verif (cfg(besok_jsonpath_rust_verif) only): access to private functions =====
-#[cfg(besok_jsonpath_rust_verif)]
+#[cfg(all(besok_jsonpath_rust_verif, feature = "vx_cmp"))]
 pub(crate) mod verif_x {
     use super::*;
     pub(crate) fn eq<'a, T: Queryable>(l: State<'a, T>, r: State<'a, T>) -> bool { super::eq(l, r) }
